@@ -4,7 +4,9 @@ Engine E6 x E5: one subprocess per real reactor class (select, poll, epoll, asyn
 K producer threads each issue M calls `reactor.callFromThread(record, tid, seq)` with seeded
 micro-pauses while `sys.monitoring` LINE events inject GIL yields inside `callFromThread`,
 `runUntilCurrent`, `wakeUp` and the waker (nowhere else).  Every k-th call, when it runs, issues a
-further call re-entrantly from the reactor thread (pseudo-thread "R").  About 4 % of the calls RAISE
+further call re-entrantly from the reactor thread (pseudo-thread "R"), and every 5th of those issues
+yet another one while it runs (nested re-entrancy; the last "R" call is found by a sentinel that goes
+round again as long as new calls were issued behind it).  About 4 % of the calls RAISE
 (PlannedFailure, after recording themselves; the reactor's logged failure is whitelisted), and so
 does every second thread's last call, which is alone in its batch: a failing call must still count
 as run exactly once and must not disturb its neighbours.
@@ -55,9 +57,9 @@ ASSUMPTIONS = [
 ]
 SHARDS = {"quick": 4, "thorough": 16}
 FLOORS = {
-    "quick": {"calls_executed": 4 * 9000, "idle_calls_measured": 4 * 20, "rounds_decided": 16, "yields_injected": 2000, "reentrant_calls_executed": 100, "raising_calls_executed": 1000,
+    "quick": {"calls_executed": 4 * 9000, "idle_calls_measured": 4 * 20, "rounds_decided": 16, "yields_injected": 2000, "reentrant_calls_executed": 100, "raising_calls_executed": 1000, "nested_reentrant_calls_executed": 300,
               "idle_burst_calls_measured": 4 * 400, "shutdown_calls_measured": 4 * 16},
-    "thorough": {"calls_executed": 100000, "idle_calls_measured": 4 * 20, "rounds_decided": 16, "yields_injected": 10000, "reentrant_calls_executed": 500, "raising_calls_executed": 2000,
+    "thorough": {"calls_executed": 100000, "idle_calls_measured": 4 * 20, "rounds_decided": 16, "yields_injected": 10000, "reentrant_calls_executed": 500, "raising_calls_executed": 2000, "nested_reentrant_calls_executed": 1000,
                  "idle_burst_calls_measured": 4 * 400, "shutdown_calls_measured": 4 * 16},
 }
 WATCHDOG_S = {"quick": 600, "thorough": 3000}
@@ -69,6 +71,7 @@ IDLE_REPS = 20
 ROUND_WATCHDOG_S = 60.0
 R_WATCHDOG_S = 20.0
 REENTRANT_EVERY = 17
+NEST_EVERY = 5
 RAISE_EVERY = 23
 
 
@@ -115,7 +118,15 @@ def scenario(reactor, inp):
         with lock:
             j = st["rseq"]
             st["rseq"] += 1
-        reactor.callFromThread(record, rid, "R", j)  # re-entrant: issued from the reactor thread
+        reactor.callFromThread(record_r, rid, j)  # re-entrant: issued from the reactor thread
+
+    def record_r(rid, j):
+        # a re-entrantly issued call that (every NEST_EVERY-th) issues a further call itself
+        if record(rid, "R", j) and j % NEST_EVERY == 2:
+            with lock:
+                k = st["rseq"]
+                st["rseq"] += 1
+            reactor.callFromThread(record_r, rid, k)
 
     # evidence only: number of our calls executed per runUntilCurrent() invocation
     real_ruc = reactor.runUntilCurrent
@@ -209,15 +220,22 @@ def scenario(reactor, inp):
                 done.set()
                 # last call of pseudo-thread R: issued after every spawner has run; from a timed
                 # call, i.e. not while the thread-call queue is being drained (same reason as above)
-                reactor.callLater(0.05, reactor.callFromThread, r_sentinel)
+                reactor.callLater(0.05, lambda: reactor.callFromThread(r_sentinel, st["rseq"]))
             if tid % 2 == 0:
                 raise PlannedFailure("sentinel %s" % tid)  # a raising call that is the last (only) one of its batch
 
-        def r_sentinel():
+        def r_sentinel(seen_rseq):
             with lock:
+                grown = st["rseq"] != seen_rseq or st["rid"] != rid
                 j = st["rseq"]
-                st["rseq"] += 1
-            if record(rid, "R", j):
+                if not grown:
+                    st["rseq"] += 1
+            if st["rid"] != rid:
+                return
+            if grown:
+                # nested calls were issued after this sentinel: it is not the last one, go round again
+                reactor.callFromThread(r_sentinel, j)
+            elif record(rid, "R", j):
                 done_r.set()
 
         inj = YieldInjector(codes, p=p, seed=seed)
@@ -259,10 +277,18 @@ def scenario(reactor, inp):
             ev = threading.Event()
             box = {}
 
-            def idle_record(rep=rep, ev=ev, box=box):
+            def idle_child(ev=ev, box=box):
                 box["t"] = time.monotonic()
                 box["ident"] = threading.get_ident()
                 ev.set()
+
+            def idle_record(rep=rep, ev=ev, box=box):
+                if rep % 2:
+                    # re-entrant call issued while the reactor is otherwise idle: it must not wait
+                    # for an unrelated event either
+                    reactor.callFromThread(idle_child)
+                else:
+                    idle_child()
 
             t0 = time.monotonic()
             try:
@@ -474,7 +500,13 @@ def scenario(reactor, inp):
 def analyse(log, K, M, reactor_ident):
     """The oracle over one round's execution log [(tid, seq, ident)]; plan = K threads x (M calls +
     sentinel seq M) + pseudo-thread R with one call per spawner + its sentinel."""
-    n_spawn = sum(1 for s in range(M) if s % REENTRANT_EVERY == 3) * K
+    n0 = sum(1 for s in range(M) if s % REENTRANT_EVERY == 3) * K
+    n_spawn = n0
+    while True:  # calls R_j with j % NEST_EVERY == 2 issue one more call: least fixed point
+        t = n0 + sum(1 for j in range(n_spawn) if j % NEST_EVERY == 2)
+        if t == n_spawn:
+            break
+        n_spawn = t
     expected = {}
     for t in range(K):
         for s in range(M + 1):
@@ -499,7 +531,7 @@ def analyse(log, K, M, reactor_ident):
     lost_r = sorted((k for k, v in expected.items() if v == 0 and k[0] == "R"), key=repr)
     dup = sorted(((k, v) for k, v in expected.items() if v > 1), key=repr)
     raising = sum(1 for (t, q), v in expected.items() if t != "R" and v and ((q < M and q % REENTRANT_EVERY != 3 and q % RAISE_EVERY == 5) or (q == M and t % 2 == 0)))
-    return {"executed": len(log), "planned": len(expected), "raising_executed": raising, "reentrant_executed": sum(v for (t, _), v in expected.items() if t == "R"),
+    return {"executed": len(log), "planned": len(expected), "raising_executed": raising, "nested_reentrant_planned": n_spawn - n0, "reentrant_executed": sum(v for (t, _), v in expected.items() if t == "R"),
             "lost": [list(k) for k in lost[:10]], "n_lost": len(lost),
             "lost_r": [list(k) for k in lost_r[:10]], "n_lost_r": len(lost_r),
             "duplicated": [[list(k), v] for k, v in dup[:10]], "n_dup": len(dup),
@@ -543,6 +575,8 @@ def judge(ctx, name, out):
         ctx.count("calls_executed", rd["executed"])
         ctx.count("reentrant_calls_executed", rd["reentrant_executed"])
         ctx.count("raising_calls_executed", rd["raising_executed"])
+        if rd["complete_r"] and not rd["n_lost_r"]:
+            ctx.count("nested_reentrant_calls_executed", rd["nested_reentrant_planned"])
         ctx.count("yields_injected", rd["yields"])
         ctx.count("monitored_lines", rd["lines"])
         ctx.count("batches", rd["n_batches"])
